@@ -112,7 +112,7 @@ flS0 == [w \in W |-> [i \in 0..40 |-> <<>>]]
 tg0 == [t \in Tag |-> NoTg]
 mx0 == [m \in Obj |-> 0]
 sq0 == [q \in Q |-> <<>>]
-ob0 == [br |-> [o \in Obj |-> 0], jc |-> [o \in Obj |-> 0], uc |-> [o \in Obj |-> 0],
+ob0 == [br |-> [o \in Obj |-> 0], jc |-> [o \in Obj |-> [d |-> 0, w |-> 0]], uc |-> [o \in Obj |-> 0],
         on |-> [o \in Obj |-> 0], fe |-> [o \in Obj |-> 0]]
 gh0 == [mown |-> [o \in Obj |-> 0],      \* descriptor holding mutex o (user level), 0 = free
         bcall |-> [o \in Obj |-> 0], bret |-> [o \in Obj |-> 0], bser |-> [o \in Obj |-> 0],
@@ -907,36 +907,46 @@ UBarrierRet(w, tag, b, rc, n) ==
   /\ UNCHANGED <<cur, got, cb, runq, ledger, tg, mx, sq, ob>>
 
 \* ------------------------------------------------------------ join counter
-\* word = waiters * 2^bits + decrements;  bits = number of bits needed to represent n
-CalcBits(n) == CHOOSE b \in 0..31 : n < Pow2(b) /\ (b = 0 \/ n >= Pow2(b - 1))
+\* word = waiters * 2^bits + decrements;  bits = number of bits needed to represent n.  The specification (and the
+\* events) keep the two fields apart: ob.jc[j] = [d |-> decrements, w |-> waiters]; an implementation whose word
+\* arithmetic spills from one field into the other (or loses the upper field for large n) shows up as a wrong field.
+MaxInt == 2147483647
+CalcBits(n) == IF n >= Pow2(30) THEN 31 ELSE CHOOSE b \in 0..30 : n < Pow2(b) /\ (b = 0 \/ n >= Pow2(b - 1))
+MaskOf(b) == IF b >= 31 THEN MaxInt ELSE Pow2(b) - 1
+JcWord(d, wt) == [d |-> d, w |-> wt]
 JcInit(w, j, n, b, mask) ==
-  /\ bad' = IF b # CalcBits(n) \/ mask # Pow2(b) - 1 \/ n > mask
+  /\ bad' = IF b # CalcBits(n) \/ mask # MaskOf(b) \/ n > mask
             THEN Fail("C07: join counter packing cannot represent n decrements") ELSE bad
-  /\ ob' = ObSet("jc", j, 0)
+  /\ ob' = ObSet("jc", j, JcWord(0, 0))
   /\ gh' = GhSet("jdec", j, 0)
   /\ UNCHANGED <<cur, got, cb, runq, th, ledger, tg, mx, sq>>
 UJcWaitCall(w, tag, j) ==
   /\ \E t \in D : At(w, t, "user") /\ th[t].tag = tag /\ th' = SetPc(t, P("jw0", j, 0, 0))
   /\ UNCHANGED <<cur, got, cb, runq, ledger, tg, bad, sv>>
-\* kind 0 = wait, 1 = dec
-JcLd(w, j, s, kind, n, bits) ==
-  /\ s = ob.jc[j]
+\* (test programs only) the word is set as if sd decrements had been made while nobody waited
+UJcPoke(w, tag, j, sd) ==
+  /\ \E t \in D : At(w, t, "user") /\ th[t].tag = tag
+  /\ ob.jc[j].w = 0 /\ ob' = ObSet("jc", j, JcWord(sd, 0)) /\ gh' = GhSet("jdec", j, sd)
+  /\ UNCHANGED <<cur, got, cb, runq, th, ledger, tg, bad, mx, sq>>
+\* kind 0 = wait, 1 = dec; (sd, sw) = the two fields of the word that was read
+JcLd(w, j, sd, kind, n, bits, sw) ==
+  /\ JcWord(sd, sw) = ob.jc[j] /\ bits = CalcBits(n)
   /\ \E t \in D : Runs(w, t) /\ th[t].pc.x = j
         /\ \/ /\ kind = 0 /\ th[t].pc.k = "jw0"
-              /\ th' = SetPc(t, IF s % Pow2(bits) = n THEN P("jw9", j, 0, 0) ELSE P5("jw1", j, s, n, bits))
-           \/ /\ kind = 1 /\ th[t].pc.k = "jd0" /\ s % Pow2(bits) < n
-              /\ th' = SetPc(t, P5("jd1", j, s, n, bits))
+              /\ th' = SetPc(t, IF sd = n THEN P("jw9", j, 0, 0) ELSE P5("jw1", j, sd, n, sw))
+           \/ /\ kind = 1 /\ th[t].pc.k = "jd0" /\ sd < n
+              /\ th' = SetPc(t, P5("jd1", j, sd, n, sw))
   /\ UNCHANGED <<cur, got, cb, runq, ledger, tg, bad, sv>>
-JcCas(w, j, exp, new, ok) ==
-  /\ ok = Flag(ob.jc[j] = exp)
-  /\ ob' = IF ok = 1 THEN ObSet("jc", j, new) ELSE ob
-  /\ \E t \in D : Runs(w, t) /\ th[t].pc.x = j /\ th[t].pc.y = exp
+JcCas(w, j, ed, ew, nd, nw, ok) ==
+  /\ ok = Flag(ob.jc[j] = JcWord(ed, ew))
+  /\ ob' = IF ok = 1 THEN ObSet("jc", j, JcWord(nd, nw)) ELSE ob
+  /\ \E t \in D : Runs(w, t) /\ th[t].pc.x = j /\ th[t].pc.y = ed /\ th[t].pc.v = ew
         /\ LET pc == th[t].pc IN
-           \/ /\ pc.k = "jw1" /\ new = exp + Pow2(pc.v)                 \* announce one more waiter
+           \/ /\ pc.k = "jw1" /\ nd = ed /\ nw = ew + 1                 \* announce one more waiter
               /\ th' = SetPc(t, IF ok = 1 THEN P("jw2", j, 0, 0) ELSE P("jw0", j, 0, 0))
-           \/ /\ pc.k = "jd1" /\ new = exp + 1                           \* one more decrement
+           \/ /\ pc.k = "jd1" /\ nd = ed + 1 /\ nw = ew                 \* one more decrement
               /\ th' = SetPc(t, IF ok = 0 THEN P("jd0", j, 0, 0)
-                                ELSE IF exp % Pow2(pc.v) = pc.z - 1 THEN P5("jd2", j, exp \div Pow2(pc.v), 0, 0)
+                                ELSE IF ed = pc.z - 1 THEN P5("jd2", j, ew, 0, 0)
                                 ELSE P("jd9", j, 0, 0))
   /\ UNCHANGED <<cur, got, cb, runq, ledger, tg, bad, mx, sq, gh>>
 \* the N-th decrement wakes exactly the waiters recorded in the word it replaced
